@@ -445,8 +445,14 @@ def main(tier, replay=None):
     if rp and rp.get("shape") == "wrap_line":
         wcases = [(([tuple(x) for x in rp["secs"]]), rp["width"], rp["ml"])]
     wm = 0
+    hangs = 0
+    drv.timeout = 10
     for secs, width, ml in wcases:
+        if hangs >= 3:
+            break       # every further hang costs the time limit; three replays are enough
         mc, dc = run_wrap(vm, drv, secs, width, ml)
+        if dc.startswith(("TIMEOUT", "DIED")):
+            hangs += 1
         chk.case(("wrap", tuple(secs), width, ml), "|" in dc, None)
         chk.count("wrap_line:limit=" + ml)
         if mc != dc:
@@ -457,7 +463,7 @@ def main(tier, replay=None):
             if dc.startswith("OK") or "|" in dc or dc:
                 pass
             text_in = [g for st, t in secs for g in graphemes(t) if g != "\n" and gw(g) > 0]
-            if dc.startswith("TIMEOUT") or dc.startswith("EXN") or dc == "":
+            if dc.startswith(("TIMEOUT", "EXN", "DIED")) or dc == "":
                 chk.violation({"property": PID, "shape": "wrap_line", "why": f"wrap_line does not return ({dc[:80]})",
                                "secs": secs, "width": width, "ml": ml})
     chk.oblige("correspondence:wrap_line", wm == 0, f"{wm} of {len(wcases)} wrap_line cases differ between model and implementation")
